@@ -84,7 +84,7 @@ Proof.
   - inversion H. split; [reflexivity|constructor].
   - apply tbind_ok in H as [te [H1 H2]]. destruct (ty_eqb te (TInt t1)) eqn:E; [|discriminate].
     destruct (IH fr H2) as [Ht HF]. split; [exact Ht|]. constructor; [|exact HF].
-    destruct te as [x| | | |]; cbn in E; try discriminate. destruct x, t1; cbn in E; try discriminate; exact H1.
+    destruct te as [x| | | | |]; cbn in E; try discriminate. destruct x, t1; cbn in E; try discriminate; exact H1.
 Qed.
 
 (* by-reference calls: the flags agree with the parameter kinds, a flagged argument is a variable, and every argument has the
@@ -183,7 +183,7 @@ Proof.
     destruct (subexpr_typed G _ _ H1 _ Hs) as [t' Ht']. eauto.
   - destruct (tlookup x G); [|discriminate]. apply tbind_ok in H as [te [H1 _]].
     destruct (subexpr_typed G _ _ H1 _ Hs) as [t' Ht']. eauto.
-  - destruct (tlookup x G) as [[| | |sid|]|]; try discriminate.
+  - destruct (tlookup x G) as [[| | | |sid|]|]; try discriminate.
     destruct (nth_error structs sid) as [fts|]; [|discriminate]. destruct (nth_error fts k); [|discriminate].
     apply tbind_ok in H as [te [H1 _]]. destruct (subexpr_typed G _ _ H1 _ Hs) as [t' Ht']. eauto.
   - apply tbind_ok in H as [tc [H1 _]]. destruct (subexpr_typed G _ _ H1 _ Hs) as [t' Ht']. eauto.
@@ -238,15 +238,34 @@ Section Rules.
 Variable structs : structs_t.
 Variable sigs : list sig.
 
+(* arithmetic: both operands have the same integer type, which is the result type; the only other well-typed use of an
+   arithmetic operator is `+` on two strings (concatenation) *)
 Lemma rule_arith_operands G o a b t :
   o = Add \/ o = Sub \/ o = Mul \/ o = Div \/ o = Mod ->
   check_expr structs sigs G (EBin o a b) = TOk t ->
-  exists x, check_expr structs sigs G a = TOk (TInt x) /\ check_expr structs sigs G b = TOk (TInt x) /\ t = TInt x.
+  (exists x, check_expr structs sigs G a = TOk (TInt x) /\ check_expr structs sigs G b = TOk (TInt x) /\ t = TInt x) \/
+  (o = Add /\ check_expr structs sigs G a = TOk TStr /\ check_expr structs sigs G b = TOk TStr /\ t = TStr).
 Proof.
   intros Ho H. cbn in H. apply tbind_ok in H as [ta [Ha H]]. apply tbind_ok in H as [tb [Hb H]].
-  destruct Ho as [-> | [-> | [-> | [-> | ->]]]]; destruct ta as [x| | |sx|rx], tb as [y| | |sy|ry]; try discriminate;
+  destruct Ho as [-> | [-> | [-> | [-> | ->]]]]; destruct ta as [x| | | |sx|rx], tb as [y| | | |sy|ry]; try discriminate;
+    try (inversion H; subst; right; auto; fail);
     destruct (ity_eqb x y) eqn:E; try discriminate; inversion H; subst;
-    exists x; (assert (x = y) as <- by (destruct x, y; cbn in E; congruence)); auto.
+    left; exists x; (assert (x = y) as <- by (destruct x, y; cbn in E; congruence)); auto.
+Qed.
+
+(* equality: both operands have the same integer type, or both are bool, or both are strings *)
+Lemma rule_equality_operands G o a b t :
+  o = Eq \/ o = Ne ->
+  check_expr structs sigs G (EBin o a b) = TOk t ->
+  t = TBool /\ exists ta, check_expr structs sigs G a = TOk ta /\ check_expr structs sigs G b = TOk ta /\
+                          ((exists x, ta = TInt x) \/ ta = TBool \/ ta = TStr).
+Proof.
+  intros Ho H. cbn in H. apply tbind_ok in H as [ta [Ha H]]. apply tbind_ok in H as [tb [Hb H]].
+  destruct Ho as [-> | ->]; destruct ta as [x| | | |sx|rx], tb as [y| | | |sy|ry]; try discriminate;
+    try (inversion H; subst; split; [reflexivity|]; eexists; split; [eassumption|]; split; [eassumption|]; auto; fail);
+    destruct (ity_eqb x y) eqn:E; try discriminate; inversion H; subst;
+    (assert (x = y) as <- by (destruct x, y; cbn in E; congruence));
+    (split; [reflexivity|]; exists (TInt x); split; [assumption|]; split; [assumption|]; left; eauto).
 Qed.
 
 Lemma rule_order_operands G o a b t :
@@ -255,7 +274,7 @@ Lemma rule_order_operands G o a b t :
   exists x, check_expr structs sigs G a = TOk (TInt x) /\ check_expr structs sigs G b = TOk (TInt x) /\ t = TBool.
 Proof.
   intros Ho H. cbn in H. apply tbind_ok in H as [ta [Ha H]]. apply tbind_ok in H as [tb [Hb H]].
-  destruct Ho as [-> | [-> | [-> | ->]]]; destruct ta as [x| | |sx|rx], tb as [y| | |sy|ry]; try discriminate;
+  destruct Ho as [-> | [-> | [-> | ->]]]; destruct ta as [x| | | |sx|rx], tb as [y| | | |sy|ry]; try discriminate;
     destruct (ity_eqb x y) eqn:E; try discriminate; inversion H; subst;
     exists x; (assert (x = y) as <- by (destruct x, y; cbn in E; congruence)); auto.
 Qed.
@@ -281,7 +300,7 @@ Proof. cbn. destruct (in_range t v); intros H; inversion H; auto. Qed.
 
 Lemma ty_eqb_eq a b : ty_eqb a b = true -> a = b.
 Proof.
-  destruct a as [x| | |m|m], b as [y| | |n|n]; cbn; try discriminate; auto.
+  destruct a as [x| | | |m|m], b as [y| | | |n|n]; cbn; try discriminate; auto.
   - destruct x, y; cbn; congruence.
   - intros H. apply Nat.eqb_eq in H. congruence.
   - intros H. apply Nat.eqb_eq in H. congruence.
